@@ -2,6 +2,7 @@ import Rtsp.Generated.Facts.Ring
 import Rtsp.Proofs.RingQueue
 import Rtsp.Proofs.RingConcF
 import Rtsp.Proofs.AsyncProps
+import Rtsp.Proofs.AsyncDriver
 /-
 C16 — Outbound write queue: FIFO, bounded, loss only when signalled.
 
@@ -309,6 +310,19 @@ theorem Async.close_terminates {size : Nat} {b : Bool} {p : Proc} (h : 0 < size)
     ∃ cs : List AOp, (∀ o ∈ cs, o = .cpull ∨ o = .cexec ∨ o = .cerr) ∧
       (Rtsp.Async.closeStep (Rtsp.Async.run p cs)).closer = .returned :=
   Rtsp.Async.close_terminates h hr hcl
+
+/-- the deterministic schedule of the correspondence driver is made of model steps: every state
+behind a line the compiled oracle prints (`async push / start / exec / closebegin / closeend`) is
+reachable, so the theorems above apply to exactly the states that are compared with the real
+Processor -/
+theorem Async.oracle_states_reachable {size : Nat} {b : Bool} {p : Proc} (hr : Rtsp.Async.Reachable size b p) :
+    (∀ c, Rtsp.Async.Reachable size b (Rtsp.Drv.Async.post (Rtsp.Async.push p c).1)) ∧
+    Rtsp.Async.Reachable size b (Rtsp.Drv.Async.post (Rtsp.Async.start p)) ∧
+    Rtsp.Async.Reachable size b (Rtsp.Drv.Async.post (Rtsp.Async.cexec p)) ∧
+    Rtsp.Async.Reachable size b (Rtsp.Drv.Async.post (Rtsp.Async.closeStep (Rtsp.Async.closeStep p))) ∧
+    Rtsp.Async.Reachable size b (Rtsp.Async.joinFuel 4 p) :=
+  ⟨Rtsp.Async.driver_push_reachable hr, Rtsp.Async.driver_start_reachable hr, Rtsp.Async.driver_exec_reachable hr,
+   Rtsp.Async.driver_closebegin_reachable hr, Rtsp.Async.driver_closeend_reachable hr⟩
 
 -- non-vacuity / tests
 /-- three pushes (the second fails), Start, the consumer runs until the error, Close -/
